@@ -25,7 +25,9 @@ MENUS = collections.OrderedDict([
     ('byhour', [0, (6, 18), 23]),
     ('byminute', [0, (15, 45), 59, (0, 30)]),
     ('bysecond', [0, (10, 50), 59, (0, 30)]),
-    ('term', [('count', 1), ('count', 7), ('until', 'occ'), ('until', 'occ-1s'), ('until', 'date'), ('count', 0)]),
+    ('term', [('count', 1), ('count', 7), ('until', 'occ'), ('until', 'occ-1s'), ('until', 'date'), ('count', 0),
+              # both given (the constructor only warns): whichever ends the sequence first does
+              ('until', 'occ', 2), ('until', 'occ', 7)]),
     ('kind', ['date', 'utc', 'tzfile', 'micro']),
 ])
 
@@ -36,7 +38,8 @@ STARTS = [D.datetime(1997, 9, 2, 9, 0, 0),        # the suite's start (Tuesday)
           D.datetime(2099, 12, 29, 6, 0, 0),      # century, non-leap 2100 ahead
           D.datetime(2004, 12, 27, 18, 45, 5),    # Monday of 2004-W53
           D.datetime(9998, 12, 28, 9, 0, 0),      # real MAXYEAR stop
-          D.datetime(2006, 1, 1, 0, 0, 0)]        # Sunday, 1 January, midnight (day index 0, all-zero time)
+          D.datetime(2006, 1, 1, 0, 0, 0),        # Sunday, 1 January, midnight (day index 0, all-zero time)
+          D.datetime(2011, 11, 11, 11, 7, 44)]    # hour, minute and second in different residue classes mod 2, 3, 4, 12
 
 # horizon in days and occurrences compared, per frequency
 HORIZON_DAYS = {0: 365 * 13, 1: 365 * 4, 2: 500, 3: 400, 4: 40, 5: 3, 6: 1}
@@ -141,6 +144,8 @@ def resolve_term(case, dtstart, base_occ):
             u = pivot.date()
     if aware and isinstance(u, D.datetime):
         u = u.astimezone(zones.build(('utc',)))                 # RFC: UNTIL in UTC when DTSTART is aware
+    if len(term) > 2:
+        return {'until': u, 'count': term[2]}
     return {'until': u}
 
 
